@@ -357,6 +357,7 @@ class DurableContext(DurableContextProtocol):
             ),
             config=config,
         )
+        self.state.track_replay(operation_id=operation_id)
         callback_id: str = executor.process()
         result: Callback = Callback(
             callback_id=callback_id,
@@ -364,7 +365,6 @@ class DurableContext(DurableContextProtocol):
             state=self.state,
             serdes=config.serdes,
         )
-        self.state.track_replay(operation_id=operation_id)
         return result
 
     def invoke(
@@ -399,8 +399,8 @@ class DurableContext(DurableContextProtocol):
             ),
             config=config,
         )
-        result: R = executor.process()
         self.state.track_replay(operation_id=operation_id)
+        result: R = executor.process()
         return result
 
     def map(
@@ -433,6 +433,7 @@ class DurableContext(DurableContextProtocol):
                 operation_identifier=operation_identifier,
             )
 
+        self.state.track_replay(operation_id=operation_id)
         result: BatchResult[R] = child_handler(
             func=map_in_child_context,
             state=self.state,
@@ -450,7 +451,6 @@ class DurableContext(DurableContextProtocol):
                 ),
             ),
         )
-        self.state.track_replay(operation_id=operation_id)
         return result
 
     def parallel(
@@ -480,6 +480,7 @@ class DurableContext(DurableContextProtocol):
                 operation_identifier=operation_identifier,
             )
 
+        self.state.track_replay(operation_id=operation_id)
         result: BatchResult[T] = child_handler(
             func=parallel_in_child_context,
             state=self.state,
@@ -497,7 +498,6 @@ class DurableContext(DurableContextProtocol):
                 ),
             ),
         )
-        self.state.track_replay(operation_id=operation_id)
         return result
 
     def run_in_child_context(
@@ -525,6 +525,7 @@ class DurableContext(DurableContextProtocol):
         def callable_with_child_context():
             return func(self.create_child_context(parent_id=operation_id))
 
+        self.state.track_replay(operation_id=operation_id)
         result: T = child_handler(
             func=callable_with_child_context,
             state=self.state,
@@ -533,7 +534,6 @@ class DurableContext(DurableContextProtocol):
             ),
             config=config,
         )
-        self.state.track_replay(operation_id=operation_id)
         return result
 
     def step(
@@ -558,8 +558,8 @@ class DurableContext(DurableContextProtocol):
             ),
             context_logger=self.logger,
         )
-        result: T = executor.process()
         self.state.track_replay(operation_id=operation_id)
+        result: T = executor.process()
         return result
 
     def wait(self, duration: Duration, name: str | None = None) -> None:
@@ -584,8 +584,8 @@ class DurableContext(DurableContextProtocol):
                 name=name,
             ),
         )
-        executor.process()
         self.state.track_replay(operation_id=operation_id)
+        executor.process()
 
     def wait_for_callback(
         self,
@@ -641,8 +641,8 @@ class DurableContext(DurableContextProtocol):
                 context_logger=self.logger,
             )
         )
-        result: T = executor.process()
         self.state.track_replay(operation_id=operation_id)
+        result: T = executor.process()
         return result
 
 
